@@ -91,6 +91,9 @@ def w_rank_tensordot(ctx, rng, idx):
     M = gen.randn(rng, (rd, k) if mode == 'last' else (k, r0), bool(rng.integers(0, 2)))
     ow = bool(rng.integers(0, 2))
     ctx.describe({'op': 'rank_tensordot', 'mode': mode, 'ranks': ranks, 'matrix': list(M.shape), 'overwrite': ow})
+    if rng.random() < 0.15:
+        # the matrix as another 2-D array type: np.matrix (what np.asmatrix / sparse.todense() hand out), a masked array with nothing masked
+        M = np.asmatrix(M) if rng.random() < 0.5 else np.ma.masked_array(M)
     call('TT.rank_tensordot', lambda: a.rank_tensordot(M, mode=mode, overwrite=ow), prop=P)
 
 
@@ -186,7 +189,20 @@ def w_diag(ctx, rng, idx, param):
         # modes counted from the back (Python / NumPy index semantics: -1 is the last mode), mixed with ordinary positions
         sub = [int(i) - d if rng.random() < 0.6 else int(i) for i in sub]
     ctx.describe({'op': 'diag', 'rows': rows, 'cols': cols, 'ranks': a.ranks, 'diag_list': sub})
-    call('TT.diag', lambda: a.diag(sub), prop=P)
+    ok_, res_ = call('TT.diag', lambda: a.diag(sub), prop=P)
+    if ok_ and rng.random() < 0.3:
+        # the selection handed over as a one-shot iterable (generator expression, iter / reversed / filter / map object): same train
+        # (the contract needs a re-readable argument: the iterator form is compared with the list form, which the contract has judged)
+        form = int(rng.integers(0, 4))
+        lst = list(sub)
+        it = [iter(lst), (i for i in lst), reversed(lst[::-1]), map(int, lst)][form]
+        try:
+            with probe.oracle():
+                res_it = a.diag(it)
+            same = list(res_it.col_dims) == list(res_.col_dims) and list(res_it.row_dims) == list(res_.row_dims) and all(np.array_equal(x, y) for x, y in zip(res_it.cores, res_.cores))
+            ctx.check('TT.diag', 'selection_as_one_shot_iterator_equals_list', same, [], {'form': form, 'diag_list': lst, 'col_dims': list(res_it.col_dims), 'want': list(res_.col_dims)} if not same else None, prop=P)
+        except Exception as e:  # noqa
+            ctx.exception('TT.diag', e, tags=['selection_as_one_shot_iterator'], prop=P)
 
 
 def enum_squeeze(tier):
